@@ -307,7 +307,13 @@ pub fn random_state_case<T: Sc>(rng: &mut Rng, thorough: bool, idx: usize) -> St
     let s = if big == 1 {
         big_size(rng, thorough)
     } else if flavour.is_mrhs() {
-        rng.range(1, o.max_s)
+        let drawn = rng.range(1, o.max_s);
+        // one case in eight: a SQUARE observation matrix (as many right-hand sides as samples)
+        if idx % 8 == 7 && recipe.n() <= 40 {
+            recipe.n()
+        } else {
+            drawn
+        }
     } else {
         1
     };
@@ -325,12 +331,24 @@ pub fn random_state_case<T: Sc>(rng: &mut Rng, thorough: bool, idx: usize) -> St
         y = y.map(|v| v * f);
     }
     let wkind = WKINDS[idx % WKINDS.len()];
-    let w = random_weights(rng, wkind, recipe.n(), recipe.m()).map(|w| w.iter().map(|v| T::of(*v)).collect());
+    let mut w: Option<Vec<T>> = random_weights(rng, wkind, recipe.n(), recipe.m()).map(|w| w.iter().map(|v| T::of(*v)).collect());
+    // one case in sixteen: SMALL UNITS - all weights (ones if there were none) times 2^-33 (2^-17 in
+    // single precision): every singular value of W·Phi lies between the machine epsilon and its
+    // square root; the threshold is an absolute bound on singular values, not on their squares
+    let mut wkind_name = wkind.name();
+    if idx % 16 == 11 {
+        let f = T::of(if T::WIDTH == 32 { 2f64.powi(-17) } else { 2f64.powi(-33) });
+        let base: Vec<T> = w.clone().unwrap_or_else(|| vec![T::of(1.0); recipe.n()]);
+        w = Some(base.iter().map(|v| *v * f).collect());
+        wkind_name = "smallunits";
+    }
     let eps = match idx % 7 {
         0 => Some(T::of(1e-9)),
         1 => Some(T::of(-1e-9)),
         // a generous user threshold (still far below the singular values of an ordinary basis)
         3 if idx % 3 == 0 => Some(T::of(*rng.pick(&[1e-4, 1e-3]))),
+        // a user threshold ABOVE one, in the middle of the singular values of an ordinary basis
+        5 if idx % 2 == 1 => Some(T::of([2.0, 4.0, -3.0][(idx / 14) % 3])),
         _ => None,
     };
     let init: Vec<T> = random_alpha(rng, recipe.p()).iter().map(|v| T::of(*v)).collect();
@@ -351,7 +369,7 @@ pub fn random_state_case<T: Sc>(rng: &mut Rng, thorough: bool, idx: usize) -> St
         flavour,
         y,
         w,
-        wkind: wkind.name(),
+        wkind: wkind_name,
         eps,
         init,
         history,
